@@ -362,7 +362,10 @@ def c_world(job, out):
     news = clist(list(enumerate(job["objs"])), lambda e: f"(WNew {e[0]} {KIND[e[1][0]]} {c_name_opt(e[1][1])})")
     steps = [f"WIS {c_wop(job, op)} {cbool(s['acc'])} {clist(s['obs'], c_obs)}" for op, s in zip(job["ops"], out["steps"])]
     ex = out.get("export")
-    exs = "None" if (ex is None or "err" in ex or job.get("export") is None) else f"(Some ({job['export']}%nat, {c_export(ex)[6:-1]}))"
+    if ex is None or job.get("export") is None:
+        exs = "None"
+    else:
+        exs = f"(Some ({job['export']}%nat, {c_export(ex)}))"
     return f"({cids}, {clist(job['names'], cstr)}, {news}, {clist(steps)}, {exs})"
 
 
@@ -740,7 +743,7 @@ def run_world_streams(run, quick, seed, pub_m, pub_b):
         jobs, nops = world_exhaustive(ctrs, objs, maxlen)
         do(f"world-exhaustive-{tag}", jobs, "wexh" + tag, 200, exhaustive=True, ops_per_step=nops, max_length=maxlen,
            box=f"all sequences of length <= {maxlen} over containers {ctrs}, objects {objs}, names a,b x {{setattr, add(x), x.vis = PORT / INTERNAL}}")
-    n_rand = 1500 if quick else 30000
+    n_rand = 1000 if quick else 30000
     maxlen = 10 if quick else 20
     sm = [n for n in ["ports", "signals", "name", "get", "_t"] if n in pub_m or n == "_t"]
     sb = [n for n in ["signals", "name", "roles", "get", "_t"] if n in pub_b or n == "_t"]
